@@ -427,4 +427,116 @@ theorem saltAuthToken_fwd (mac : Str → Str → List UInt8) (R : Str) (db : Str
   | skipped => rw [hs] at h; exact ⟨_, _, h, Or.inl ⟨rfl, rfl, rfl⟩⟩
   | parsed ts nb => rw [hs] at h; exact ⟨_, _, h, Or.inr ⟨ts, nb, rfl, rfl, rfl⟩⟩
 
+/-! ### opaque tokens, the panic path -/
+
+/-- A token that is not in Arvados format at all: neither `v2/<uuid>/<secret>…` nor the legacy
+`[0-9a-z]{41,}` (an OIDC access token, a JWT, any other string). -/
+def Opaque (t : Str) : Prop :=
+  (∀ u s more, splitSlash t ≠ sV2 :: u :: s :: more) ∧ isObsolete t = false
+
+theorem saltToken_opaque (mac : Str → Str → List UInt8) (t R : Str) (h : Opaque t) :
+    saltToken mac t R = .error .format := by
+  rw [saltToken_not_v2 mac t R h.1]; simp [h.2]
+
+theorem resolveLocal_ne_panic (mac : Str → Str → List UInt8) (R : Str) (db : Str → Option (Str × Str))
+    (t uuid secret : Str) : resolveLocal mac R db t uuid secret ≠ .panic := by
+  unfold resolveLocal
+  cases db secret with
+  | none => simp
+  | some p =>
+    obtain ⟨aca, user⟩ := p
+    dsimp only
+    split
+    · simp
+    · split
+      · simp
+      · cases saltToken mac (tokenV2 aca secret) R with
+        | ok s => simp
+        | error e => cases e <;> simp
+
+theorem splitSlash_singleton_noslash (x p : Str) (h : splitSlash x = [p]) : '/' ∉ x := by
+  have h1 := joinSlash_splitSlash x
+  rw [h] at h1
+  simp only [joinSlash] at h1
+  subst h1
+  exact mem_splitSlash_noslash _ _ (by rw [h]; simp)
+
+theorem isObsolete_of_slash (t : Str) (h : '/' ∈ t) : isObsolete t = false := by
+  simp only [isObsolete, Bool.and_eq_false_iff]
+  right
+  rw [Bool.eq_false_iff]
+  intro hall
+  have := List.all_eq_true.mp hall '/' h
+  revert this; decide
+
+/-- exactly the tokens `v2/<x>` with no further '/' make `validateAPItoken` index out of range -/
+theorem legacyToken_panic_iff (mac : Str → Str → List UInt8) (R : Str) (db : Str → Option (Str × Str))
+    (t : Str) : legacyToken mac R db t = .panic ↔ ∃ x, t = sV2Slash ++ x ∧ '/' ∉ x := by
+  constructor
+  · intro h
+    unfold legacyToken at h
+    have key : (if sV2Slash.isPrefixOf t then
+        (match splitSlash t with
+         | _ :: u :: s :: _ => resolveLocal mac R db t u s
+         | _ => TokOut.panic)
+        else resolveLocal mac R db t [] t) = .panic → ∃ x, t = sV2Slash ++ x ∧ '/' ∉ x := by
+      intro hk
+      by_cases hp : sV2Slash.isPrefixOf t = true
+      · rw [if_pos hp] at hk
+        obtain ⟨x, rfl⟩ := List.isPrefixOf_iff_prefix.mp hp
+        refine ⟨x, rfl, ?_⟩
+        have hsp : splitSlash (sV2Slash ++ x) = sV2 :: splitSlash x := by
+          have : sV2Slash ++ x = sV2 ++ '/' :: x := by simp [sV2Slash, sV2]
+          rw [this, splitSlash_append_slash _ _ slash_not_mem_sV2]
+        rw [hsp] at hk
+        cases hx : splitSlash x with
+        | nil => exact absurd hx (splitSlash_ne_nil x)
+        | cons p ps =>
+          cases ps with
+          | nil => exact splitSlash_singleton_noslash x p hx
+          | cons q qs =>
+            rw [hx] at hk
+            exact absurd hk (resolveLocal_ne_panic mac R db _ _ _)
+      · rw [if_neg hp] at hk
+        exact absurd hk (resolveLocal_ne_panic mac R db _ _ _)
+    cases hst : saltToken mac t R with
+    | ok s => rw [hst] at h; cases h
+    | error e =>
+      rw [hst] at h
+      cases e with
+      | salted => cases h
+      | obsolete => exact key h
+      | format => exact key h
+  · rintro ⟨x, rfl, hx⟩
+    have hsp : splitSlash (sV2Slash ++ x) = [sV2, x] := by
+      have : sV2Slash ++ x = sV2 ++ '/' :: x := by simp [sV2Slash, sV2]
+      rw [this, splitSlash_append_slash _ _ slash_not_mem_sV2, splitSlash_noslash x hx]
+    have hnot : ∀ u s more, splitSlash (sV2Slash ++ x) ≠ sV2 :: u :: s :: more := by
+      intro u s more h; rw [hsp] at h; simp at h
+    have hob : isObsolete (sV2Slash ++ x) = false := isObsolete_of_slash _ (by simp [sV2Slash])
+    have hpre : sV2Slash.isPrefixOf (sV2Slash ++ x) = true :=
+      List.isPrefixOf_iff_prefix.mpr (List.prefix_append _ _)
+    unfold legacyToken
+    rw [saltToken_not_v2 mac _ R hnot]
+    simp only [hob, Bool.false_eq_true, if_false, hpre, if_true, hsp]
+
+/-- the forwarding wrapper adds nothing to, and removes nothing from, the credential-bearing parts -/
+theorem remoteClusterRequest_sent (mac : Str → Str → List UInt8) (configured : Bool) (R : Str)
+    (db : Str → Option (Str × Str)) (scheme : Str) (r : Req) (others : List (Str × Str)) (w : Wire)
+    (h : remoteClusterRequest mac configured R db scheme r others = .sent w) :
+    configured = true ∧ saltAuthToken mac R db r = .fwd w.fwd ∧ w = proxyDo scheme others w.fwd := by
+  unfold remoteClusterRequest at h
+  by_cases hc : configured = true
+  · simp only [hc, Bool.not_true, Bool.false_eq_true, if_false] at h
+    cases hs : saltAuthToken mac R db r with
+    | fwd f =>
+      rw [hs] at h
+      simp only [WireOut.sent.injEq] at h
+      subst h
+      exact ⟨hc, rfl, rfl⟩
+    | err e => rw [hs] at h; cases h
+    | panic => rw [hs] at h; cases h
+    | unmodelled => rw [hs] at h; cases h
+  · simp [hc] at h
+
 end ArvVerif.C19
